@@ -42,6 +42,20 @@ def opt(x, f=hx) -> str:
     return '~' if x is None else f(x)
 
 
+BAD_VT = {'BAD_STR': 'not-a-variable-type', 'BAD_OBJ': 123}
+
+
+def vt_arg(x):
+    """the variable_type argument handed to the API: a member, or one of the two invalid forms"""
+    if x in BAD_VT:
+        return BAD_VT[x]
+    return NodeVariableType(x)
+
+
+def vt_token(x) -> str:
+    return {'BAD_STR': '?s', 'BAD_OBJ': '?o'}.get(x, x)
+
+
 def ety(e) -> str:
     """edge type text; after a JSON round trip the code keeps the plain string instead of the enum member"""
     t = e.get_edge_type()
@@ -90,7 +104,7 @@ def _ep_line(e) -> str:
 def op_line(slot: str, op) -> str:
     k = op[0]
     if k == 'add_node':
-        return f'g op {slot} add_node {hx(op[1])} {op[2]} {enc_meta(op[3])}'
+        return f'g op {slot} add_node {hx(op[1])} {vt_token(op[2])} {enc_meta(op[3])}'
     if k == 'add_node_obj':
         return f'g op {slot} add_node_obj {hx(op[1])} {op[2]} {enc_meta(op[3])}'
     if k == 'ts_add_node':
@@ -108,7 +122,7 @@ def op_line(slot: str, op) -> str:
                 f'{opt_meta(op[6])}')
     if k == 'replace_node':
         # ['replace_node', id, new|None, lag|None, var|None, vt|None|'default', meta|None]
-        vt = 'unspecified' if op[5] == 'default' else opt(op[5], str)
+        vt = 'unspecified' if op[5] == 'default' else opt(op[5], vt_token)
         return f'g op {slot} replace_node {hx(op[1])} {opt(op[2])} {opt(op[3], str)} {opt(op[4])} {vt} {opt_meta(op[6])}'
     if k == 'add_time_edge':
         return f'g op {slot} add_time_edge {hx(op[1])} {op[2]} {hx(op[3])} {op[4]} {enc_meta(op[5])} {int(op[6])}'
@@ -136,7 +150,7 @@ def apply_op(g, op) -> str:
     k = op[0]
     try:
         if k == 'add_node':
-            g.add_node(op[1], variable_type=NodeVariableType(op[2]), meta=op[3] if op[3] else None)
+            g.add_node(op[1], variable_type=vt_arg(op[2]), meta=op[3] if op[3] else None)
         elif k == 'add_node_obj':
             g.add_node(node=_mk_node(g, op[1], op[3], op[2]))
         elif k == 'ts_add_node':
@@ -174,7 +188,7 @@ def apply_op(g, op) -> str:
         elif k == 'replace_node':
             kw = {}
             if op[5] != 'default':
-                kw['variable_type'] = None if op[5] is None else NodeVariableType(op[5])
+                kw['variable_type'] = None if op[5] is None else vt_arg(op[5])
             if op[6] is not None:
                 kw['meta'] = op[6]
             if is_ts(g):
